@@ -172,9 +172,25 @@ class ThrRunner:
         class UserError(RuntimeError):
             pass
 
+        class FalsyError(Exception):
+            """an exception instance whose truth value is False (e.g. it carries an empty list of items)"""
+            def __bool__(self):
+                return False
+
+        class EmptyError(Exception):
+            def __len__(self):
+                return 0
+
+        class BadReprError(Exception):
+            """str()/repr() of the instance raise: the record must still be produced once"""
+            def __str__(self):
+                raise RuntimeError("no text")
+            __repr__ = __str__
+
         name = (self.scn.get("exc") or {}).get(str(key), "ValueError")
         return {"Exception": Exception, "ValueError": ValueError, "UserError": UserError, "SchedulerError": SchedulerError,
-                "StopIteration": StopIteration, "QueueEmpty": _q.Empty, "KeyError": KeyError}[name]
+                "StopIteration": StopIteration, "QueueEmpty": _q.Empty, "KeyError": KeyError,
+                "FalsyError": FalsyError, "EmptyError": EmptyError, "BadReprError": BadReprError}[name]
 
     # ------------------------------------------------------------ callbacks
     def make_cb(self, cell):
